@@ -22,7 +22,8 @@ structure DInv (s : State) : Prop where
   lockedNodup : (AM.keys s.locked).Nodup
   nextOk : ∀ k b, AM.get? s.next k = some b → BatchOk k b
   lockedOk : ∀ k b, AM.get? s.locked k = some b → BatchOk k b
-  hold : ∀ c, c ≤ maxChainId → holdAmt s c = pendStored s c
+  /-- chain ids are `1 … MaxChainId` (`0` is reserved: `holdingId 0` is the reward pool of chain `MaxChainId`) -/
+  hold : ∀ c, 0 < c → c ≤ maxChainId → holdAmt s c = pendStored s c
   height : 0 < s.height
 
 theorem pendOpt_some (b : Batch) : pendOpt (some b) = b.pending := rfl
@@ -56,24 +57,24 @@ theorem pending_of_isEmpty {b : Batch} (h : b.isEmpty = true) : b.pending = 0 :=
 
 /-- a state change that leaves pools' relation to batches intact: same stored batches, same holding balances -/
 theorem dinv_of_same {s s' : State} (hi : DInv s) (hn : s'.next = s.next) (hl : s'.locked = s.locked)
-    (hh : s'.height = s.height) (hp : PInv s') (hho : ∀ c, c ≤ maxChainId → holdAmt s' c = holdAmt s c) : DInv s' where
+    (hh : s'.height = s.height) (hp : PInv s') (hho : ∀ c, 0 < c → c ≤ maxChainId → holdAmt s' c = holdAmt s c) : DInv s' where
   pools := hp
   nextNodup := by rw [hn]; exact hi.nextNodup
   lockedNodup := by rw [hl]; exact hi.lockedNodup
   nextOk := by rw [hn]; exact hi.nextOk
   lockedOk := by rw [hl]; exact hi.lockedOk
-  hold := fun c hc => by rw [hho c hc, hi.hold c hc]; simp [pendStored, hn, hl]
+  hold := fun c h0 hc => by rw [hho c h0 hc, hi.hold c h0 hc]; simp [pendStored, hn, hl]
   height := by rw [hh]; exact hi.height
 
 /-- an effect with zero debit keeps the invariant -/
 theorem dinv_of_eff0 {s s' : State} {c : Nat} (hc : c ≤ maxChainId) (hi : DInv s) (e : Eff c s s' 0) : DInv s' :=
-  dinv_of_same hi e.next e.locked e.height (e.pinv hi.pools) (fun c' hc' => by
+  dinv_of_same hi e.next e.locked e.height (e.pinv hi.pools) (fun c' _ hc' => by
     by_cases h : c' = c
     · subst h; have := e.hold; omega
     · exact e.holdOther c' hc' h)
 
 theorem dinv_normalize {s : State} (hi : DInv s) : DInv (normalize s) := by
-  refine dinv_of_same hi rfl rfl rfl ?_ (fun c _ => getPool_normalize_amount s _)
+  refine dinv_of_same hi rfl rfl rfl ?_ (fun c _ _ => getPool_normalize_amount s _)
   intro id
   have h := hi.pools id
   unfold getPool normalize at *
@@ -212,17 +213,17 @@ theorem dinv_setNext {s s2 : State} {c k : Nat} {b' : Batch} (hi : DInv s) (hc :
     · rw [AM.get?_set_other _ _ _ _ h] at hk; exact hi.nextOk k' b hk
   lockedOk := by simp only [setNext]; rw [hl]; exact hi.lockedOk
   hold := by
-    intro c' hc'
+    intro c' h0 hc'
     rw [holdAmt_setNext]
     unfold pendStored
     simp only [setNext]
     rw [hn, hl]
     by_cases h : c' = c
     · subst h
-      rw [AM.get?_set_self, hhold, hi.hold c' hc']
+      rw [AM.get?_set_self, hhold, hi.hold c' h0 hc']
       show pendStored s c' + k = b'.pending + _
       rw [hpend]; unfold pendStored; omega
-    · rw [AM.get?_set_other _ _ _ _ h, hother c' hc' h, hi.hold c' hc']; rfl
+    · rw [AM.get?_set_other _ _ _ _ h, hother c' hc' h, hi.hold c' h0 hc']; rfl
   height := by simp only [setNext]; rw [hh]; exact hi.height
 
 theorem getBatch_next_spec {s : State} (hi : DInv s) (c : Nat) :
@@ -353,9 +354,9 @@ theorem dinv_rotate {s : State} (hi : DInv s) (c : Nat) (hc : c ≤ maxChainId) 
       · subst h; rw [AM.get?_set_self] at hk; injection hk with hk; subst hk
         exact ⟨Or.inr hn2, hn3⟩
       · rw [AM.get?_set_other _ _ _ _ h] at hk; exact hi.lockedOk k b' hk
-    · intro c' hc'
+    · intro c' h0 hc'
       show holdAmt s c' = _
-      rw [hi.hold c' hc']
+      rw [hi.hold c' h0 hc']
       unfold pendStored
       simp only [setLocked, delNext]
       by_cases h : c' = c
@@ -424,9 +425,9 @@ theorem includeOne_dinv {s : State} {k : Nat} {b : Batch} (hi : DInv s) (hk : AM
           by_cases h : k' = k
           · subst h; rw [AM.get?_set_self] at hk'; injection hk' with hk'; subst hk'; exact ⟨Or.inr rfl, hokB.pct⟩
           · rw [AM.get?_set_other _ _ _ _ h] at hk'; exact hi.lockedOk k' b' hk'
-        · intro c' hc'
+        · intro c' h0 hc'
           show holdAmt s c' = _
-          rw [hi.hold c' hc']
+          rw [hi.hold c' h0 hc']
           unfold pendStored
           simp only [setLocked, delNext]
           by_cases h : c' = k
@@ -451,9 +452,9 @@ theorem includeOne_dinv {s : State} {k : Nat} {b : Batch} (hi : DInv s) (hk : AM
           by_cases h : k' = k
           · subst h; rw [AM.get?_set_self] at hk'; injection hk' with hk'; subst hk'; exact ⟨Or.inr rfl, hokB.pct⟩
           · rw [AM.get?_set_other _ _ _ _ h] at hk'; exact hi.lockedOk k' b' hk'
-        · intro c' hc'
+        · intro c' h0 hc'
           show holdAmt s c' = _
-          rw [hi.hold c' hc']
+          rw [hi.hold c' h0 hc']
           unfold pendStored
           simp only [setLocked, setNext]
           by_cases h : c' = k
@@ -519,7 +520,7 @@ theorem dinv_after_receipts {s s1 : State} {c D : Nat} (hi : DInv s) (hc : c ≤
     · subst h; rw [AM.get?_del_self _ _ hi.lockedNodup] at hk; cases hk
     · rw [AM.get?_del_other _ _ _ h] at hk; exact hi.lockedOk k b hk
   hold := by
-    intro c' hc'
+    intro c' h0 hc'
     show holdAmt s1 c' = _
     unfold pendStored
     simp only [delLocked]
@@ -528,11 +529,11 @@ theorem dinv_after_receipts {s s1 : State} {c D : Nat} (hi : DInv s) (hc : c ≤
     · subst h
       rw [AM.get?_del_self _ _ hi.lockedNodup]
       have := e.hold
-      have := hi.hold c' hc'
+      have := hi.hold c' h0 hc'
       unfold pendStored at this
       simp only [pendOpt_none]
       omega
-    · rw [AM.get?_del_other _ _ _ h, e.holdOther c' hc' h, hi.hold c' hc']; rfl
+    · rw [AM.get?_del_other _ _ _ h, e.holdOther c' hc' h, hi.hold c' h0 hc']; rfl
   height := by simp only [delLocked]; rw [e.height]; exact hi.height
 
 /-- the fallback refunded our locked batch and replaced it by the empty batch -/
@@ -550,7 +551,7 @@ theorem dinv_after_fallback {s s1 : State} {c D : Nat} (hi : DInv s) (hc : c ≤
     · subst h; rw [AM.get?_set_self] at hk; injection hk with hk; subst hk; exact batchOk_empty _
     · rw [AM.get?_set_other _ _ _ _ h] at hk; exact hi.lockedOk k b hk
   hold := by
-    intro c' hc'
+    intro c' h0 hc'
     show holdAmt s1 c' = _
     unfold pendStored
     simp only [setLocked]
@@ -559,11 +560,11 @@ theorem dinv_after_fallback {s s1 : State} {c D : Nat} (hi : DInv s) (hc : c ≤
     · subst h
       rw [AM.get?_set_self]
       have := e.hold
-      have := hi.hold c' hc'
+      have := hi.hold c' h0 hc'
       unfold pendStored at this
       simp only [pendOpt_some, pending_empty]
       omega
-    · rw [AM.get?_set_other _ _ _ _ h, e.holdOther c' hc' h, hi.hold c' hc']; rfl
+    · rw [AM.get?_set_other _ _ _ _ h, e.holdOther c' hc' h, hi.hold c' h0 hc']; rfl
   height := by simp only [setLocked]; rw [e.height]; exact hi.height
 
 theorem dinv_executeRemote {s s' : State} {remote : Batch} {c : Nat} {bh : Bytes} {mirror : Nat} (hi : DInv s)
@@ -642,7 +643,6 @@ def DexOk (s : State) : Op → Prop
         (r.livenessFallback = true → ptsSum r.poolPoints = r.totalPoolPoints ∧ r.totalPoolPoints < U64)
   | .setPool id p => PoolOk p ∧ ∀ c, c ≤ maxChainId → id ≠ holdingId c
   | .seedNext c b => c ≤ maxChainId ∧ AM.get? s.next c = none ∧ BatchOk c b ∧ holdAmt s c + b.pending < U64
-  | .subsidy _ id _ _ => ∀ c, c ≤ maxChainId → id ≠ holdingId c
   | _ => True
 
 theorem apply_dinv {s s' : State} {op : Op} (hi : DInv s) (hok : DexOk s op) (h : apply s op = .ok s') : DInv s' := by
@@ -651,7 +651,7 @@ theorem apply_dinv {s s' : State} {op : Op} (hi : DInv s) (hok : DexOk s op) (h 
   | setPool id p =>
     injection h with h; subst h
     exact dinv_of_same hi rfl rfl rfl (pinv_setPool hi.pools hok.1)
-      (fun c hc => by unfold holdAmt; rw [getPool_setPool_other _ _ _ _ (Ne.symm (hok.2 c hc))])
+      (fun c _ hc => by unfold holdAmt; rw [getPool_setPool_other _ _ _ _ (Ne.symm (hok.2 c hc))])
   | seedNext c b =>
     injection h with h; subst h
     obtain ⟨hc, hnone, hb, hfit⟩ := hok
@@ -666,15 +666,20 @@ theorem apply_dinv {s s' : State} {op : Op} (hi : DInv s) (hok : DexOk s op) (h 
     change subsidy s a id n op = Except.ok s' at h
     unfold subsidy at h
     obtain ⟨_, _, h⟩ := bind_ok h
+    obtain ⟨u, hu, h⟩ := bind_ok h
+    have hid := (checkChainId_ok hu).2
     split at h
     · cases h
     · obtain ⟨s1, h1, h⟩ := bind_ok h
       injection h with h; subst h
       have e1 : Eff 0 s s1 0 := eff_accountSub h1
       refine dinv_of_same hi e1.next e1.locked e1.height
-        (pinv_setPool (e1.pinv hi.pools) (poolOk_amount (e1.pinv hi.pools _) (Nat.mod_lt _ (by decide)))) (fun c hc => ?_)
+        (pinv_setPool (e1.pinv hi.pools) (poolOk_amount (e1.pinv hi.pools _) (Nat.mod_lt _ (by decide)))) (fun c h0 hc => ?_)
+      -- an accepted subsidy goes to a chain id (≤ MaxChainId): below every holding pool id of a chain ≥ 1
+      have hne : holdingId c ≠ id := by
+        unfold holdingId Gen.Dex.HoldingPoolAddend U64; unfold maxChainId at hid hc; omega
       show (getPool (poolAdd s1 id n) (holdingId c)).amount = _
-      rw [poolAdd_other _ _ _ _ (Ne.symm (hok c hc))]
+      rw [poolAdd_other _ _ _ _ hne]
       exact holdAmt_congr (accountSub_ok h1).2.1 c
   | create m => exact dinv_of_sellEff hi (sellEff_create h)
   | edit m => exact dinv_of_sellEff hi (sellEff_edit h)
@@ -718,7 +723,7 @@ theorem dinv_init (self root height minOrder : Nat) (hh : 0 < height) : DInv { s
   lockedNodup := by simp [AM.keys]
   nextOk := fun k b h => by simp [AM.get?] at h
   lockedOk := fun k b h => by simp [AM.get?] at h
-  hold := fun c _ => by simp [holdAmt, pendStored, getPool, AM.get?, pendOpt]
+  hold := fun c _ _ => by simp [holdAmt, pendStored, getPool, AM.get?, pendOpt]
   height := hh
 
 end Canopy.Dex
